@@ -11,32 +11,32 @@ import (
 // violation.
 
 type directedCase struct {
-	name   string
-	tmpl   string // template + mutation, or
-	mut    string
-	arg    int
-	sig    string // scriptSig / scriptPubKey in test-vector notation
-	pk     string
-	flags  uint32
-	want   string
+	name  string
+	tmpl  string // template + mutation, or
+	mut   string
+	arg   int
+	sig   string // scriptSig / scriptPubKey in test-vector notation
+	pk    string
+	flags uint32
+	want  string
 }
 
 const (
-	fStrict      = refscript.FlagStrictEnc
-	fLowS        = refscript.FlagLowS
-	fMinData     = refscript.FlagMinimalData
-	fMinIf       = refscript.FlagMinimalIf
-	fNullFail    = refscript.FlagNullFail
-	fCleanStack  = refscript.FlagCleanStack
-	fPushOnly    = refscript.FlagSigPushOnly
-	fWitPubKey   = refscript.FlagWitnessPubKeyType
-	fConstCode   = refscript.FlagConstScriptCode
-	fDisNops     = refscript.FlagDiscourageUpgradableNops
-	fDisWitProg  = refscript.FlagDiscourageUpgradableWitnessProg
-	fDisTapVer   = refscript.FlagDiscourageUpgradableTaprootVer
-	fDisSuccess  = refscript.FlagDiscourageOpSuccess
-	fDisPubKey   = refscript.FlagDiscourageUpgradablePubKeyType
-	keyHex       = "0x21 0x0279be667ef9dcbbac55a06295ce870b07029bfcdb2dce28d959f2815b16f81798"
+	fStrict     = refscript.FlagStrictEnc
+	fLowS       = refscript.FlagLowS
+	fMinData    = refscript.FlagMinimalData
+	fMinIf      = refscript.FlagMinimalIf
+	fNullFail   = refscript.FlagNullFail
+	fCleanStack = refscript.FlagCleanStack
+	fPushOnly   = refscript.FlagSigPushOnly
+	fWitPubKey  = refscript.FlagWitnessPubKeyType
+	fConstCode  = refscript.FlagConstScriptCode
+	fDisNops    = refscript.FlagDiscourageUpgradableNops
+	fDisWitProg = refscript.FlagDiscourageUpgradableWitnessProg
+	fDisTapVer  = refscript.FlagDiscourageUpgradableTaprootVer
+	fDisSuccess = refscript.FlagDiscourageOpSuccess
+	fDisPubKey  = refscript.FlagDiscourageUpgradablePubKeyType
+	keyHex      = "0x21 0x0279be667ef9dcbbac55a06295ce870b07029bfcdb2dce28d959f2815b16f81798"
 )
 
 var directedCases = []directedCase{
